@@ -40,14 +40,18 @@ pub fn matches(predicate: &str, v: &Viol) -> bool {
         // C09: the dependency's string input accepts an empty-suffix `!!` tag that its buffered input rejects
         "c09_empty_suffix_secondary_tag" => {
             // (the same disagreement seen through any clause that compares string with reader input)
-            (matches!(v.clause.as_str(), "reader-disagrees" | "closure-helper-disagrees" | "spanned-locations-disagree" | "tight-budget-disagrees" | "error-span-disagrees"))
+            (matches!(v.clause.as_str(), "reader-disagrees" | "closure-helper-disagrees" | "spanned-locations-disagree" | "tight-budget-disagrees" | "error-span-disagrees" | "interrupted-read-changes-result"))
                 && doc_text(&v.case).map(|s| has_empty_suffix_secondary_tag(&s)).unwrap_or(false)
         }
         // C09: NUL inside a %directive ends the directive for reader input only (consequence of the F04 repair)
         "c09_nul_in_directive" => {
-            (matches!(v.clause.as_str(), "reader-disagrees" | "closure-helper-disagrees" | "spanned-locations-disagree" | "tight-budget-disagrees" | "error-span-disagrees"))
+            (matches!(v.clause.as_str(), "reader-disagrees" | "closure-helper-disagrees" | "spanned-locations-disagree" | "tight-budget-disagrees" | "error-span-disagrees" | "interrupted-read-changes-result"))
                 && doc_text(&v.case).map(|s| has_nul_in_directive(&s)).unwrap_or(false)
         }
+        // C07: under per-document enforcement the alias/anchor ratio is evaluated once, at the end of the
+        // stream, over the last document's counters: a document over its ratio is yielded as Ok (and the
+        // error item, if any, follows it). Only the missing breach is known; a false rejection is not.
+        "c07_per_document_ratio" => v.clause == "per-document-ratio" && v.detail.contains("breach expected: true"),
         _ => false,
     }
 }
